@@ -601,7 +601,7 @@ func (t *ZeroAllocTokenizer) processBlockTag(content string) {
 
 	case "for":
 		// Process for loop with iterator(s) and collection
-		inPos := strings.Index(strings.ToLower(blockContent), " in ")
+		inPos := indexFoldASCII(blockContent, " in ")
 		if inPos != -1 {
 			iterators := strings.TrimSpace(blockContent[:inPos])
 			collection := strings.TrimSpace(blockContent[inPos+4:])
@@ -695,7 +695,7 @@ func (t *ZeroAllocTokenizer) processBlockTag(content string) {
 
 	case "include":
 		// Handle include with template path and optional context
-		withPos := strings.Index(strings.ToLower(blockContent), " with ")
+		withPos := indexFoldASCII(blockContent, " with ")
 		if withPos != -1 {
 			templatePath := strings.TrimSpace(blockContent[:withPos])
 			contextExpr := strings.TrimSpace(blockContent[withPos+6:])
@@ -729,7 +729,7 @@ func (t *ZeroAllocTokenizer) processBlockTag(content string) {
 	case "from":
 		// Handle from tag which has a special format:
 		// {% from "template.twig" import macro1, macro2 as alias %}
-		importPos := strings.Index(strings.ToLower(blockContent), " import ")
+		importPos := indexFoldASCII(blockContent, " import ")
 		if importPos != -1 {
 			// Extract template path and macros list
 			templatePath := strings.TrimSpace(blockContent[:importPos])
@@ -747,7 +747,7 @@ func (t *ZeroAllocTokenizer) processBlockTag(content string) {
 				macro = strings.TrimSpace(macro)
 
 				// Check for "as" alias
-				asPos := strings.Index(strings.ToLower(macro), " as ")
+				asPos := indexFoldASCII(macro, " as ")
 				if asPos != -1 {
 					// Extract macro name and alias
 					macroName := strings.TrimSpace(macro[:asPos])
@@ -782,7 +782,7 @@ func (t *ZeroAllocTokenizer) processBlockTag(content string) {
 	case "import":
 		// Handle import tag which allows importing entire templates
 		// {% import "template.twig" as alias %}
-		asPos := strings.Index(strings.ToLower(blockContent), " as ")
+		asPos := indexFoldASCII(blockContent, " as ")
 		if asPos != -1 {
 			// Extract template path and alias
 			templatePath := strings.TrimSpace(blockContent[:asPos])
@@ -824,6 +824,31 @@ func (t *ZeroAllocTokenizer) tokenizeTemplatePath(path string) {
 		// Otherwise tokenize as expression
 		t.TokenizeExpression(path)
 	}
+}
+
+// indexFoldASCII returns the byte offset in s of the first occurrence of substr, ignoring the
+// case of ASCII letters in s (substr is given in lower case). Unlike an offset found in
+// strings.ToLower(s), the result is an offset into s itself: lower-casing can change the byte
+// length of non-ASCII letters ("Ⱥ" is 2 bytes, "ⱥ" is 3).
+func indexFoldASCII(s, substr string) int {
+	n := len(substr)
+	for i := 0; i+n <= len(s); i++ {
+		j := 0
+		for j < n {
+			c := s[i+j]
+			if c >= 'A' && c <= 'Z' {
+				c += 'a' - 'A'
+			}
+			if c != substr[j] {
+				break
+			}
+			j++
+		}
+		if j == n {
+			return i
+		}
+	}
+	return -1
 }
 
 // isCharAlpha checks if a byte is an alphabetic character
